@@ -278,6 +278,9 @@ func (r *vfRun) Finish(minEvals int64, minCells int) {
 	if len(r.samples) == 0 {
 		cov["samples"] = []interface{}{"(no samples recorded)"}
 	}
+	if r.assumptions == nil {
+		r.assumptions = []string{}
+	}
 	ev := map[string]interface{}{
 		"property_id": r.ID, "tier": r.Env.Tier, "seed": r.Env.Seed, "level": r.Level,
 		"coverage": cov, "assumptions": r.assumptions, "wall_s": time.Since(r.start).Seconds(), "violations": r.violations,
